@@ -4,7 +4,6 @@ import (
 	"fmt"
 	"strings"
 
-	"verif/drv"
 	"verif/internal/refmodel"
 	"verif/internal/space"
 )
@@ -43,13 +42,6 @@ func c02(ctx *Ctx) {
 		k = 2
 	}
 	runBehaviour(ctx, behaviour{Name: "valid", Cases: cases, Devs: c02Devs, Values: true, K: k, Respell: true,
-		// date / time / date-time values written with JSON escapes: the wrapper types (and time.Time itself) cut the quotes off the raw bytes
-		KnownMismatch: func(sc *SCase, d *refmodel.Doc, o *drv.Obs) string {
-			if strings.HasSuffix(d.Class, "/respelled") && strings.Contains(o.Err, "parsing time") && strings.Contains(o.Err, `\\u00`) {
-				return "FORMAT_STRING_ESCAPES_REJECTED"
-			}
-			return ""
-		},
 		DocFilter: func(sc *SCase, d *refmodel.Doc, tv refmodel.Verdict) bool { return tv == refmodel.Accept }})
 	ctx.Run.Assume("number values are limited to those whose shortest float64 text equals the input text; integers to int64",
 		"date-time samples have no trailing fractional zeros; ipv6 samples are canonical", "absent and null are the same observation for a decoded field",
